@@ -35,7 +35,11 @@ func (ex *Exec) jump(st *State, f *Frame, succIdx int) bool {
 		if f.loops == nil {
 			f.loops = map[int]int{}
 		}
-		f.loops[to.Index]++
+		if f.symFlag {
+			// only iterations that involved a symbolic branch count towards the unwinding bound
+			f.loops[to.Index]++
+			f.symFlag = false
+		}
 		if f.loops[to.Index] > ex.cfg.Unwind {
 			if ex.pathFeasible(st) {
 				ex.rep.UnwoundOut++
@@ -600,6 +604,7 @@ func (ex *Exec) doIf(st *State, th *Thread, f *Frame, x *ssa.If) []*State {
 		}
 		return nil
 	}
+	f.symFlag = true
 	ncond := ex.ctx.Not(cond)
 	var rT, rF Res
 	var mT, mF Model
